@@ -43,8 +43,9 @@ dvars == <<grp, gmap, nfl, ids, nposts>>
 allvars == <<ovars, dvars>>
 
 IntegName(i) == "webhook/" \o ToString(i - 1)
-TheCfg == [gw |-> GW, gi |-> GI, ri |-> RI, integs |-> [i \in 1..Len(SR) |-> [name |-> IntegName(i), sr |-> SR[i]]],
-           inhibit |-> INH, windows |-> Windows, wait |-> 0, maxwait |-> 0, mute |-> << >>, active |-> << >>, gkp |-> "{}"]
+TheCfg == [root |-> RootOnly(GW, GI, RI), routes |-> << >>,
+           integs |-> [i \in 1..Len(SR) |-> [recv |-> "r1", name |-> IntegName(i), sr |-> SR[i]]],
+           inhibit |-> INH, windows |-> Windows, wait |-> 0, maxwait |-> 0]
 NInt == Len(SR)
 AgName(i) == "ag" \o ToString(i)
 
